@@ -53,7 +53,11 @@ SHEET_TEXTS = ['a { top: 0 } b { left: 0 }', '@import "late.css"; c {}', 'x { to
 RULE_TEXTS = ['r { top: 1px }', '@media tv { r { left: 0 } }', 'r {', '@import "x";', '/* r */', 'r,,s { top: 0 }', '@page { margin: 2cm }',
               '@namespace r "http://r.example";', '@charset "latin-1";',
               '@page { @top-left { content: "a" } @top-left { font-size: 9pt } margin: 1cm }',
-              '@media print { @page { @bottom-right { content: "a" } @bottom-right { color: red; content: "b" } } }']
+              '@media print { @page { @bottom-right { content: "a" } @bottom-right { color: red; content: "b" } } }',
+              # a prelude that is rejected in front of a block that is fine, and the other way round
+              '@media 3x { c { top: 0 } }', '@media print and { c { top: 0 } d { left: 0 } }', '@media tv { c { top: 0 } @import "x"; }',
+              '@media tv { c { top: 0 } } trailing', '@page :nosuch { margin: 1cm }', '@page :first { margin: 1cm; @nosuch-box { top: 0 } }',
+              'r { top: 0 } s { left: 0 }', ', { top: 0 }', 'nn|r { top: 0 }', '@font-face { font-family: x; } x', '@variables { y: 2px; } x']
 LIST_TEXTS = ['x { top: 0 } /* c */ y { left: 0 }', '@namespace l "http://l.example"; l|a { top: 0 }',
               '@font-face { font-family: "L"; src: url(l) } m { top: 0 }', '@import "l.css"; n { top: 0 }',
               '@page { margin: 0 } @media print { o { top: 0 } }', '@charset "ascii"; p { top: 0 }', '/* only */', '@foo l; q { top: 0 }',
